@@ -13,6 +13,8 @@ fallback.rs {execute_sequential_suffix} (= C04/h3), scheduler.rs {run_commit_loo
   h2_seq_suffix   : (= C04/h3) sequential replay: Skipped carries revm's InvalidTransaction unchanged, later transactions run.
   h3_commit_loop  : (= C04/h2) a nonce mismatch at the commit head leaves the transaction uncommitted, requests fallback,
                     releases transactions parked behind their commit boundary.
+  h4_replay_nonce_overflow : the replay's pre-check reject_nonce_overflow reports NonceOverflowInTransaction iff nonce checking is on, the tx nonce
+                    is u64::MAX and the sender's state nonce is u64::MAX; otherwise it reads nothing / passes, so revm's own reason is reported.
 revm's own validate_* (which transactions are protocol-invalid) is the oracle's definition of "invalid": outside the claim.
 """
 from run import Spec
@@ -58,7 +60,15 @@ def stubs():
         oi = n.f("original_info")
         if oi.kind == "enum":
             tr.emit(f"{tr.lv(Loc(oi.discr, d.idxs))} = 0;")
-    return {"<ParallelStateCommit as DatabaseRef>::basic_ref": basic_ref, "<ParallelStateCommit as DatabaseCommit>::commit": commit,
+    def invalid_into(tr, c):
+        """impl From<InvalidTransaction> for EVMError<..>: EVMError::Transaction(e)"""
+        d = c.dest()
+        n = d.node
+        ti = n.vindex("Transaction")
+        tr.emit(f"{tr.lv(Loc(n.discr, d.idxs))} = {ti};")
+        tr.store(Loc(n.variants[ti][1].fields[0], d.idxs), c.args[0])
+    return {"<ParallelStateCommit as DatabaseRef>::basic_ref": basic_ref, "<DB as DatabaseRef>::basic_ref": basic_ref,
+            "<InvalidTransaction as Into>::into": invalid_into, "<ParallelStateCommit as DatabaseCommit>::commit": commit,
             "<Account as From>::from": acc_from}
 
 
@@ -182,11 +192,45 @@ def build_h1():
     return b
 
 
+def build_h4():
+    """the sequential replay's nonce-overflow pre-check: fires exactly when revm's saturating nonce bump would otherwise hide an overflow"""
+    def b(tr):
+        H = hz.Harness(tr, "c03_h4")
+        for nm, ct in (("com_exists", "_Bool"), ("com_fault", "_Bool"), ("com_balance", WIDE), ("com_nonce", "u64"), ("com_code_hash", WIDE), ("lookups", "unsigned char")):
+            H.cvar(nm, ct, dims=[A], shared=False)
+        H.cvar("commits", "unsigned char", shared=False); H.cvar("dis", "_Bool", shared=False)
+        H.c("commits = 0; dis = nondet_bool();")
+        for a in range(A):
+            H.c(f"com_exists[{a}] = nondet_bool(); com_fault[{a}] = nondet_bool(); com_balance[{a}] = nondet_uchar(); com_nonce[{a}] = nondet_usize(); com_code_hash[{a}] = nondet_uchar(); lookups[{a}] = 0;")
+        db = H.local("db", "DB")
+        tx = H.local("tx", "TxEnv")
+        tr._c03_state = H.local("committed_state", "EvmState")
+        res = H.local("res", "Result<(), EVMError<DBError>>")
+        H.c(f"{H.lv(tx, 'caller')} = nondet_uchar(); __CPROVER_assume({H.lv(tx, 'caller')} < {A}); {H.lv(tx, 'nonce')} = nondet_usize();")
+        H.call("reject_nonce_overflow", [H.ref(db), H.val("dis", "_Bool"), H.ref(tx)], res)
+        c_ = H.lv(tx, "caller"); n_ = H.lv(tx, "nonce")
+        MAXN = "18446744073709551615UL"
+        state_nonce = f"(com_exists[{c_}] ? com_nonce[{c_}] : 0)"
+        need = f"(!dis && {n_} == {MAXN})"
+        err = f"({H.lv(res, 'd')} == {H.variant(res, '', 'Err')})"
+        e = H.nav(res, "Err.0")
+        H.assert_(f"!(!{need}) || !{err}", "the pre-check passes (revm's own validation decides) unless nonce checking is on and the tx nonce is u64::MAX")
+        H.assert_(f"!({need} && com_fault[{c_}]) || ({err} && {H.lv(e, 'd')} == {H.variant(e, '', 'Database')} && {H.lv(e, 'Database.0')} == 60 + {c_})", "a database fault while reading the sender is returned unchanged")
+        H.assert_(f"!({need} && !com_fault[{c_}]) || ({err} == ({state_nonce} == {MAXN}))", "rejected iff the sender's state nonce is u64::MAX as well (absent sender = 0)")
+        H.assert_(f"!({need} && !com_fault[{c_}] && {err}) || ({H.lv(e, 'd')} == {H.variant(e, '', 'Transaction')} && {H.lv(e, 'Transaction.0.code')} == 200)",
+                  "the reason is InvalidTransaction::NonceOverflowInTransaction")
+        H.cover(f"{err} && {need} && !com_fault[{c_}]", "overflow rejected"); H.cover(f"!{err} && {need}", "MAX tx nonce on a lower state nonce passes the pre-check")
+        return H
+    return b
+
+
 def specs(tier):
     import c04
     out = [Spec("h1_commit_nonce", build_h1(), cfg=cfg(), unwind=4, timeout=2700,
                 desc="real OrderedCommitter::commit for every tx nonce / committed sender account / speculative post-state / reward / fault",
                 bounds={"addresses": A, "value_bits": 8})]
+    out.append(Spec("h4_replay_nonce_overflow", build_h4(), cfg=cfg(), unwind=4, timeout=1800,
+                    desc="real reject_nonce_overflow (sequential replay pre-check) for every tx nonce / sender account / setting / fault", bounds={"addresses": A}))
     for s in c04.specs(tier):
         if s.name == "h3_seq_suffix":
             s.name = "h2_seq_suffix"
